@@ -188,6 +188,14 @@ def run(rep: Report) -> None:
     from .. import ctor
 
     ctor.check(rep, groups=("link", "vsl"))
+    # the next states do not depend on how the network was put together: mainline first, validated and stepped, then a branch attached to an interior node
+    # (CPython caching of the lookups and views, real invalidation) vs. the same network built in one go
+    from .. import balance as _B
+
+    _bad = _B.incremental_vs_direct(rep.prog)
+    rep.check(not _bad, "construction-history-invariance", "merge network built incrementally (validated and stepped in between) vs in one go",
+              "Network.step", "; ".join(_bad[:2]), key="incremental")
+
 
 
 def _fn(where: str) -> str:
